@@ -17,7 +17,9 @@ tables are never read while being rebuilt nor initialised twice.
   falsifier  monitors inside the harness on the real code (second initialisation of a held / initialised lock, FFT_LEN reset,
              table or FFT_LEN written without the writer role, rebuild without growth, two rebuilders, reader inside a
              transform during a rebuild, release of a lock not held, use of an uninitialised lock, deadlock) and every job's
-             output compared bit for bit with the same job run alone in a fresh process.
+             output compared bit for bit with the same job run alone in a fresh process.  Supplement without the scheduler
+             (what the hook granularity cannot see): free-running real threads after a completed initialisation, outputs vs
+             serial runs, and the same under ThreadSanitizer (any race other than the two listed ones is a violation).
   F9         reproduced on purpose (schedules that park one thread inside LSX_INIT_FFT_CACHE / vr_init while another
              initialises, builds and uses the tables): KNOWN-FINDING.  The signature is decided by the model during the
              replay (a thread took `i0_cold` while another was inside the initialiser = the step `ReachableS` excludes); any
@@ -61,10 +63,10 @@ def round1(g, sets, quick):
             for rs in (0, 1):
                 g.add(s, "base" if rs == 0 else "tail", tail="c", warm=warm, relswitch=rs)
                 g.add(s, "tail", tail="r", warm=warm, relswitch=rs)
-            for i in range(4 if quick else 40):
+            for i in range(12 if quick else 60):
                 g.add(s, "random-tail", tail="x", seed=1 + rng.below(1 << 30), p=rng.choice([8, 16, 64, 128, 255]), warm=warm,
                       relswitch=rng.below(2))
-            for i in range(6 if quick else 60):
+            for i in range(20 if quick else 100):
                 ln = 2 + rng.below(40)
                 pre = "".join(str(rng.below(nt)) for _ in range(ln))
                 g.add(s, "random-prefix", sched=pre, tail=rng.choice(["c", "r", "x"]), seed=1 + rng.below(1 << 30),
@@ -85,7 +87,7 @@ def round2(g, sets, base, quick):
                     g.add(s, "preempt-1", sched="c" * i + ch, tail="c", warm=warm)
             # bound 2 / 3
             if quick:
-                for _ in range(24):
+                for _ in range(80):
                     i, j = rng.below(nd + 1), rng.below(nd + 1)
                     g.add(s, "preempt-2", sched="c" * i + rng.choice(sw) + "c" * j + rng.choice(sw), tail="c", warm=warm, relswitch=rng.below(2))
             else:
@@ -105,17 +107,16 @@ def round2(g, sets, base, quick):
             g.add(s, "f9-park", sched="0" + "1" * k + "0", tail="c", warm=0)
             if not quick or k % 4 == 0:
                 g.add(s, "f9-park", sched="0" + "1" * k + "0", tail="r", warm=0)
-        if not quick:
-            depth = 11 if nt == 2 else 7
-            digits = "012"[:nt]
-            for warm in (0, 1):
-                for tail in ("c", "r"):
-                    for v in range(nt ** depth):
-                        pre, x = "", v
-                        for _ in range(depth):
-                            pre += digits[x % nt]
-                            x //= nt
-                        g.add(s, "exhaustive-prefix", sched=pre, tail=tail, warm=warm)
+        depth = (7 if nt == 2 else 4) if quick else (12 if nt == 2 else 7)
+        digits = "012"[:nt]
+        for warm in (0, 1):
+            for tail in ("c", "r"):
+                for v in range(nt ** depth):
+                    pre, x = "", v
+                    for _ in range(depth):
+                        pre += digits[x % nt]
+                        x //= nt
+                    g.add(s, "exhaustive-prefix", sched=pre, tail=tail, warm=warm)
 
 
 def replay_line(run):
@@ -172,7 +173,14 @@ def run(ctx):
             sp, mo = r["spec"], r["model"]
             stats["runs"] += 1
             stats["events"] += r["events"]
-            stats["distinct"].add((sp["jobs"], sp.get("warm", 0), sp.get("relswitch", 0), sp.get("simd32", 0), sp.get("simd64", 0), r["decisions"]))
+            if r["events"] > 0 and r["ndec"] > 1:
+                stats["distinct"].add((sp["jobs"], sp.get("warm", 0), sp.get("relswitch", 0), sp.get("simd32", 0), sp.get("simd64", 0), r["decisions"]))
+            if mo and mo.get("ok"):
+                stats["ok_model"] = stats.get("ok_model", 0) + 1
+            if stats["runs"] % 997 == 1:
+                ctx.sample({"schedule": replay_line(r), "family": sp["family"], "events": r["events"], "decision_points": r["ndec"],
+                            "status": r["status"], "outputs_differing_from_serial": r["wrong"], "monitor_hits": [k for _, k, _ in r["viol"]][:6],
+                            "model": (mo or {}).get("raw", "")[:300]})
             ctx.hist("schedules_by_family", sp["family"])
             ctx.hist("schedules_by_jobset", sp["set"])
             ctx.hist("schedules_by_threads", L.nthreads(sp["jobs"]))
@@ -224,6 +232,7 @@ def run(ctx):
     # ---------------- evidence
     ctx.count("evaluations", stats["runs"])
     ctx.count("distinct_nontrivial", len(stats["distinct"]))
+    ctx.cov["traces_validated_against_impl"] = stats.get("ok_model", 0)
     ctx.cov["events_replayed_on_model"] = stats["events"]
     ctx.cov["model_transitions_fired"] = stats["fired"]
     fired = [n for i, n in enumerate(labels) if (stats["cov"][0] | stats["cov"][1]) >> i & 1]
@@ -243,10 +252,10 @@ def run(ctx):
                        "thread exit) + tail policy; families: tail policies (run-to-block, round-robin, random with 5 switch probabilities), "
                        "random decision prefixes, EVERY single pre-emption of the non-pre-emptive schedule (every decision point x every other "
                        "thread), pairs of pre-emptions (%s), thread 0 parked inside the initialiser for EVERY progress k of thread 1%s; "
-                       "each from process start and from a completed initialisation"
+                       "each from process start and from a completed initialisation.  distinct_nontrivial = distinct (job set, start, release-switching, "
+                       "engine selection, complete decision string) among the runs with at least one cache / table event and more than one decision"
                        % ("random sample" if quick else "exhaustive up to 70 decision points (36 for 3 threads), random triples",
-                          "" if quick else ", ALL decision prefixes of length 11 (2 threads) / 7 (3 threads) x 2 tails"))
-    ctx.sample({"example_schedule_line": L.spec_line(L.mk("cr32-pair", "example", id="x", sched="cccn", tail="c", warm=1))})
+                          ", ALL decision prefixes of length %s x 2 tails" % ("7 (2 threads) / 4 (3 threads)" if quick else "12 (2 threads) / 7 (3 threads)")))
     ctx.assume(
         "OpenMP simple locks behave as binary semaphores that may be released by a thread other than the acquirer (Courtois' P/V as "
         "ccrw2.h uses them; libgomp's simple locks permit it, the OpenMP specification does not promise it)",
@@ -262,17 +271,22 @@ def run(ctx):
 
     # ---------------- verdicts
     active = [f for f in common.known_active(PID) if f.get("id") == "F9"]
+    fr = L.free_running(ctx, bool(active))
     if knowns:
         text = ("first-use initialisation raced by two threads before either completed it (model step i0_cold with another thread inside the "
                 "initialiser) in %d explored schedules; consequences seen on the real code: %s; e.g. `%s`"
                 % (stats["f9_runs"] + stats["vr_raced"], ", ".join("%s x%d" % (k, v["n"]) for k, v in sorted(knowns.items())),
                    sorted(knowns.values(), key=lambda v: v["line"])[0]["line"]))
+        if fr.get("f9_tsan"):
+            text += "; " + fr["f9_tsan"]
         if active:
             ctx.known("F9", text)
         else:
             k0 = sorted(knowns)[0]
             ctx.violation("unguarded lazy initialisation raced (F9 is not listed as an active known finding): " + text,
                           {"line": knowns[k0]["line"], "kind": k0})
+    if fr.get("f9_tsan") and not knowns:
+        ctx.known("F9", fr["f9_tsan"])
     ctx.cov["f9_consequences_seen"] = {k: v["n"] for k, v in knowns.items()}
     if witness:
         r, c = sorted(witness, key=lambda w: (len(w[0]["decisions"]), w[0]["spec"]["id"]))[0]
